@@ -622,7 +622,7 @@ func typedHistories(c *Ctx, prop string, cases []int, n int) {
 	for hi := 0; hi < n; hi++ {
 		cfg := baseCfg(r, hi)
 		h := genHistory(r, cfg, histOpts{units: 3 + r.Intn(4), maxCols: 2 + r.Intn(10), maxRows: 3, rotations: false, ignorables: false,
-			kindsOnly: []string{"txXid", "autoRows", "txCommit"}, colCases: cases, oddCols: true})
+			kindsOnly: []string{"txXid", "autoRows", "txCommit"}, colCases: cases, oddCols: true, wideCols: hi%6 == 5})
 		h.encode(c)
 		nulls, absents := false, false
 		for _, e := range h.events {
@@ -633,6 +633,9 @@ func typedHistories(c *Ctx, prop string, cases []int, n int) {
 					c.R.Dist["rows events: partial image, > 8 columns (not a multiple of 8), padding bits set in the presence bitmap"]++
 				}
 			}
+		}
+		if hi%6 == 5 {
+			c.R.Dist["histories with a table of 65..130 columns"]++
 		}
 		c.R.Count(fmt.Sprintf("end-to-end/%s/null%v/absent%v", cfg.Key(), nulls, absents))
 		c.R.Dist["e2e-"+cfg.PadKey()]++
